@@ -1,7 +1,8 @@
 (* C03 — property theorems only. Variables of the reference evaluator are store cells; closures
    capture cell references; function environments: for all programs fragments, states, fuel. *)
 From GL Require Import Common.Bytes Lua.Syntax Lua.Num Lua.Values Lua.Names Lua.Eval
-  Lua.ValuesFacts Lua.MonadFacts Lua.EvalStepFacts Lua.CallFacts Lua.ClosureFacts Lua.CatchFacts.
+  Lua.ValuesFacts Lua.MonadFacts Lua.EvalStepFacts Lua.CallFacts Lua.ClosureFacts Lua.CatchFacts
+  Lua.DriveFacts Lua.EvalInvFacts Lua.DriveRunFacts.
 
 Theorem alloc_cell_fresh : forall v s,
   exists s', alloc_cell v s = Ret (length (cells s)) s' /\
@@ -86,6 +87,21 @@ Theorem error_keeps_store : forall n fr f rest s e s',
   builtin_call (S n) fr BPcall (f :: rest) s = Ret [VBool false; e] s'.
 Proof. exact pcall_of_err_lemma. Qed.
 Print Assumptions error_keeps_store.
+
+(* the store only grows, whatever runs (induction over the whole evaluator): an index that is
+   fresh now was never valid before, and every cell a closure captured stays a valid cell — on
+   normal return and on error alike *)
+Theorem store_only_grows_exec : forall n cx en st s r s', exec n cx en st s = Ret r s' -> store_grows s s'.
+Proof. exact exec_store_grows_lemma. Qed.
+Print Assumptions store_only_grows_exec.
+
+Theorem store_only_grows_call : forall n fr f args s r s', call n fr f args s = Ret r s' -> store_grows s s'.
+Proof. exact call_store_grows_lemma. Qed.
+Print Assumptions store_only_grows_call.
+
+Theorem store_only_grows_on_error : forall n fr f args s v s', call n fr f args s = Err v s' -> store_grows s s'.
+Proof. exact call_err_store_grows_lemma. Qed.
+Print Assumptions store_only_grows_on_error.
 
 (* function environments *)
 Theorem fenv_inherited : forall n cx ln en ps va body l1 l2 s,
